@@ -19,6 +19,7 @@ import (
 
 	am "github.com/pancsta/asyncmachine-go/pkg/machine"
 	"github.com/pancsta/asyncmachine-go/pkg/states/pipes"
+	"github.com/pancsta/asyncmachine-go/pkg/x/vsched"
 )
 
 type world struct {
@@ -155,6 +156,23 @@ func TestCheck(t *testing.T) {
 		mk(def{name: "binderr", bound: b(1, 2), schema: sc, names: names,
 			bind:  func(w *world) error { _, err := pipes.BindErr(w.src, w.tgt, "ErrDisk"); return err },
 			burst: []kit.Step{S("adderr")}, pairs: [][2]string{{am.StateException, "ErrDisk"}, {am.StateException, am.StateException}}}),
+		// the target is busy (a handler that takes several steps) while the
+		// source toggles on/off/on: all three piped mutations are queued there
+		mk(def{name: "busy-target:burst3", bound: b(1, 2), schema: sc, names: names,
+			bind: func(w *world) error {
+				_, err := w.tgt.HandlersBindMaps(nil, map[string]am.HandlerFinal{"BState": func(e *am.Event) {
+					for i := 0; i < 4; i++ {
+						vsched.Yield("busy")
+					}
+				}})
+				if err != nil {
+					return err
+				}
+				_, err = pipes.Bind(w.src, w.tgt, "A", "", "")
+				return err
+			},
+			pre:   func(w *world) { sk.Go("busy", func() { w.tgt.Add1("B", nil) }) },
+			burst: []kit.Step{S("add", "A"), S("remove", "A"), S("add", "A")}, pairs: [][2]string{{"A", "A"}}}),
 		mk(def{name: "bindany", bound: b(1, 2), schema: sc, names: names, any: true,
 			bind:  func(w *world) error { _, err := pipes.BindAny(w.src, w.tgt); return err },
 			burst: []kit.Step{S("add", "A"), S("add", "B"), S("remove", "A")}}),
